@@ -72,6 +72,12 @@ func c10samples() []c10sample {
 			"<img src=\"i.png\" srcset=\"a.png 1x, b.png 2x\" style=\"background:url('s.png')\" data-item='{\"u\":\"http://example.com/di.png\"}'>",
 			"<script type=\"application/json\">{\"u\":\"http://example.com/j.js\"}</script><script>var x={\"v\":\"http://example.com/v.mp4\"};</script>",
 			"<a href=\"/next\" onclick=\"window.location='/w'\">n</a><meta content=\"http://example.com/m\"><video src=v.mp4></video>", "</body></html>"}},
+		// the same page cut finer around the constructs with their own parsing code: inline script payloads,
+		// srcset lists, CSS url() values
+		{name: "html-script", ctype: "text/html; charset=utf-8", uri: "http://example.com/dir/app.html", status: 200, chunks: []string{
+			"<!DOCTYPE html><html><body><script>", "window.__STATE__", "=", "{\"u\":\"http://example.com/s.png\",\"n\":{\"v\":\"/w.js\"}", "}", ";</script>", "</body></html>"}},
+		{name: "html-lists", ctype: "text/html; charset=utf-8", uri: "http://example.com/dir/pics.html", status: 200, chunks: []string{
+			"<!DOCTYPE html><html><body><img srcset=\"", "a.png 1x", ", ", "b.png 2x", "\" style=\"background:url(", "'s.png'", ")\"></body></html>"}},
 		{name: "json", ctype: "application/json", uri: "http://example.com/api/doc.json", status: 200, chunks: []string{
 			"{\"a\":", "\"http://example.com/a.png\",", "\"b\":[", "\"http://example.com/p\",{\"c\":\"{\\\"d\\\":\\\"http://example.com/d.css\\\"}\"}", "],", "\"n\":null,\"t\":true", "}"}},
 		{name: "xml", ctype: "application/xml", uri: "http://example.com/feed.xml", status: 200, chunks: []string{
